@@ -78,6 +78,12 @@ def run(req):
                 objs[c["o"]] = core.order_book_from_json(*args); val = None
             elif k == "call":
                 val = getattr(objs[c["o"]], c["m"])(*args)
+            elif k == "bulk":
+                n, tick, centre = args; b = objs[c["o"]]; val = 0
+                for i in range(n):
+                    bid = i % 2 == 0; kk = (i // 2) % 40
+                    price = (centre - 1 - kk) * tick if bid else (centre + 1 + kk) * tick
+                    val = b.place_order(bid, 1 + i % 9, i % 50, price)
             elif k == "prop":
                 val = getattr(objs[c["o"]], c["m"])
             elif k == "df_orders":
